@@ -1,6 +1,6 @@
 //go:build !verif
 
-package main
+package ctops
 
 func graftInit() {}
 
